@@ -273,10 +273,15 @@ def _notify(ctx: Ctx, c: Collector) -> None:
                         neg = [[T.negate(x) for x in og] for og in ok_guards if len(og) == 1]
                         if gts in neg:
                             pr.append("the trigger condition is negated: a step is scheduled exactly when the attribute was NOT part of the output")
+                        by_value = [x for x in gts if any(y[0] == "call" and y[1][0] == "attr" and y[1][2] == "get" and y[2][:1] == (at,) for y in T.subterms((x,)))
+                                    or any(y == ("idx", ("idx", data, eid), at) for y in T.subterms((x,)))]
+                        if by_value and not any(x in og for og in ok_guards for x in gts):
+                            pr.append("the trigger depends on the attribute's *value* (" + T.show(by_value[0])[:70] + "): an output that is present but None / falsy "
+                                      "(an event without payload) does not trigger its receivers")
                         extra = [x for x in gts if not any(x in og for og in ok_guards)]
                         if extra and any(x in og for og in ok_guards for x in gts):
                             pr.append("the trigger is additionally conditional on " + " and ".join(T.show(x) for x in extra) + ": some demanded steps are not scheduled")
-                        else:
+                        elif not by_value:
                             unk = f"trigger condition {[T.show(x) for x in gts]} not recognised"
     if pr:
         c.bad("notify", NOTIFY, "trigger->schedule_step", "; ".join(pr), ctx.loc(fi, e))
